@@ -322,7 +322,8 @@ class C11(SingleRun):
             "variable, missing key, wrong type, unknown function; YAQL or Jinja); (b) expr_base.evaluate wrapped to raise the "
             "evaluator's exception at the k-th top-level evaluation; non-trivial = the fault fired inside update_task_state or "
             "get_next_tasks (not at start-up)")
-    faults = dict(eval_fault=0.15, poll_skip=0.05, restart=0.02, p_fail=0.05, cancel=0.04, pause=0.03, resume_early=0.1)
+    faults = dict(eval_fault=0.15, poll_skip=0.05, restart=0.02, p_fail=0.05, cancel=0.04, pause=0.03, resume_early=0.1,
+                  pending=0.06, act_paused=0.03, act_cancel_solo=0.02, cancel_while_pausing=0.1)
     world = dict(seam=True, expect_clean=False)
 
     def profile(self, seed, tier, as_prop=None):
